@@ -358,6 +358,11 @@ func Gen(prop, tier string, seed uint64) *kernel.Plan {
 			}
 			evs = append(evs, e)
 		}
+		if prop == "C18" && g.Chance(1, 12) {
+			// the answer to this client's next push (it pushes by itself after its next local operation)
+			// is slow: a pull caused by somebody else's notification overtakes it
+			evs = append(evs, Ev{T: "holdresp", A: a, N: g.Intn(3)}, c.localEv(a))
+		}
 		if prop == "C17" && g.Chance(1, 30) {
 			evs = append(evs, Ev{T: "parcoll", S: g.U64() % 100000})
 		}
